@@ -11,6 +11,7 @@
    protocol permits" (justified clause by clause in Model/Wire<F>.v). *)
 From SV Require Import Lib.Base Gen.Consts Gen.WireFields Model.WireBase Proofs.WireBaseProofs.
 From SV Require Import Model.WireIpv6Opt Proofs.WireIpv6OptProofs.
+From SV Require Import Model.WireIpv6Hbh Proofs.WireIpv6HbhProofs.
 
 (* ---------------- IPv6 extension-header option (src/wire/ipv6option.rs) ----------------
    Built without proto-rpl: Type::Rpl options are Repr::Unknown. *)
@@ -47,3 +48,46 @@ Theorem C06_v6opt_iter_bytes : forall opts,
   forallb v6opt_wf opts = true -> v6opt_iter (v6opt_bytes_list opts) = map Ok opts.
 Proof. exact v6opt_iter_bytes. Qed.
 Print Assumptions C06_v6opt_iter_bytes.
+
+(* ---------------- Hop-by-Hop options header (src/wire/ipv6hbh.rs) ----------------
+   The header is the option area of a generic extension header (Props/C06b.v: v6ext); the repr is
+   a heapless::Vec of at most cfg_IPV6_HBH_MAX_OPTIONS options. *)
+
+Theorem C06_v6hbh_emit_no_panic : forall r b,
+  v6hbh_wf r = true -> blen b = v6hbh_buffer_len r -> v6hbh_emit r b <> Panic.
+Proof. exact v6hbh_emit_no_panic. Qed.
+Print Assumptions C06_v6hbh_emit_no_panic.
+
+Theorem C06_v6hbh_emit_ignores_old_bytes : forall r b1 b2,
+  v6hbh_wf r = true -> blen b1 = v6hbh_buffer_len r -> blen b2 = v6hbh_buffer_len r ->
+  v6hbh_emit r b1 = v6hbh_emit r b2.
+Proof. exact v6hbh_emit_ignores_old_bytes. Qed.
+Print Assumptions C06_v6hbh_emit_ignores_old_bytes.
+
+Theorem C06_v6hbh_roundtrip : forall r b,
+  v6hbh_wf r = true -> blen b = v6hbh_buffer_len r ->
+  exists bs, v6hbh_emit r b = Ok bs /\ blen bs = v6hbh_buffer_len r /\ v6hbh_parse bs = Ok r.
+Proof. exact v6hbh_roundtrip. Qed.
+Print Assumptions C06_v6hbh_roundtrip.
+
+Theorem C06_v6hbh_reparse : forall bs r,
+  bytes_ok bs = true -> v6hbh_parse bs = Ok r ->
+  v6hbh_wf r = true /\
+  forall b, blen b = v6hbh_buffer_len r ->
+    exists bs', v6hbh_emit r b = Ok bs' /\ v6hbh_parse bs' = Ok r.
+Proof. exact v6hbh_reparse. Qed.
+Print Assumptions C06_v6hbh_reparse.
+
+(* the constructors used by the interface stay inside the proviso *)
+Theorem C06_v6hbh_mldv2_router_alert_ok :
+  v6hbh_mldv2_router_alert = Ok (mkV6Hbh [V6OptRouterAlert 0]) /\ v6hbh_wf (mkV6Hbh [V6OptRouterAlert 0]) = true.
+Proof. exact v6hbh_mldv2_router_alert_ok. Qed.
+Print Assumptions C06_v6hbh_mldv2_router_alert_ok.
+
+Theorem C06_v6hbh_push_padn_option_ok : forall r n,
+  v6hbh_wf r = true -> is_u8 n = true ->
+  Z.of_nat (length (v6hbh_opts r)) < cfg_IPV6_HBH_MAX_OPTIONS ->
+  exists r', v6hbh_push_padn_option r n = Ok r' /\ v6hbh_wf r' = true /\
+             v6hbh_buffer_len r' = v6hbh_buffer_len r + (n + 2).
+Proof. exact v6hbh_push_padn_option_ok. Qed.
+Print Assumptions C06_v6hbh_push_padn_option_ok.
